@@ -320,3 +320,32 @@ func H_C17_slice_of_maps_same_violation() {
 	vCheckUnordered("C17 Map([]map) with the same violation in several elements", err, r)
 	vReach("end")
 }
+
+// ---- thorough tier: larger groups, several objects ----
+
+type vG5 struct {
+	A string  `valid:"either=1"`
+	B int     `valid:"either=1,botheq=2"`
+	C string  `valid:"either=1"`
+	D int     `valid:"botheq=2"`
+	E float64 `valid:"either=1"`
+	F int     `valid:"botheq=2"`
+	G bool    `valid:"either=1"`
+	H int     `valid:"botheq=2,either=3"`
+}
+
+func H_C17T_groups_of_five() {
+	vRunGroups("C17 either/5 members of 4 kinds, botheq/4 ints, a single-member group",
+		&vG5{A: vStr("A"), B: vndInt("B"), C: vStr("C"), D: vndInt("D"), E: vndFloat64("E"), F: vndInt("F"), G: vndBool("G"), H: vndInt("H")}, true)
+}
+
+type vG5Holder struct {
+	L []*vG5         `valid:"exist"`
+	M map[string]vG5 `valid:"exist"`
+	A string         `valid:"either=1"`
+}
+
+func H_C17T_three_objects() {
+	o := &vG5Holder{L: []*vG5{{A: vStr("L0A"), D: vndInt("L0D")}, nil, {B: vndInt("L2B"), G: vndBool("L2G")}}, M: map[string]vG5{"k": {C: vStr("MC"), F: vndInt("MF")}}, A: vStr("A")}
+	vRunGroups("C17 groups in slice elements, a map value and the holder", o, true)
+}
